@@ -324,6 +324,7 @@ func c19Run(c *Check, cs c19Case, straceOK bool) {
 			c.Inconclusive("strace injected no fault (no syscall matched the output path)")
 			return
 		}
+		c.Count("strace_faults_injected/"+cs.strace, 1)
 	}
 	after := stampTree(work)
 	c.Eval(cs.key+"\x00"+strings.Join(args, "\x00"), true)
